@@ -667,6 +667,8 @@ def verify(spec, registry=None, max_paths=400, only_clauses=None, only_cfg=None)
                                        reason="no feasible path reached the end of the function (requires contradictory or everything unsupported)"))
     plevel = spec.get("property_level", True)
     _SOLVE["vcs"], _SOLVE["plevel"] = vcs, plevel
+    _SOLVE["budget_ms"] = spec.get("z3_timeout_ms")
+    _SOLVE["retries"] = not spec.get("no_retries", False)
     njobs = int(spec.get("solve_jobs", 1))
     if njobs > 1 and len(vcs) > 4:
         import multiprocessing as mp
@@ -679,7 +681,7 @@ def verify(spec, registry=None, max_paths=400, only_clauses=None, only_cfg=None)
     base_len = len(out["obligations"]) - len(vcs)
     for i in range(len(vcs)):
         ob = out["obligations"][base_len + i]
-        if ob.get("status") == "undecided" and "UNSUPPORTED" not in str(ob.get("reason")):
+        if ob.get("status") == "undecided" and "UNSUPPORTED" not in str(ob.get("reason")) and _SOLVE["retries"]:
             old_t = smt.Z3_TIMEOUT_MS
             smt.Z3_TIMEOUT_MS = old_t * 3
             try:
@@ -698,6 +700,7 @@ _SOLVE = {}
 
 def _solve_vc(i):
     vc, plevel = _SOLVE["vcs"][i], _SOLVE["plevel"]
+    budget, retries = _SOLVE.get("budget_ms"), _SOLVE.get("retries", True)
     if "unsupported" in vc:
         return dict(name=vc["name"], status="undecided", reason="UNSUPPORTED: " + vc["unsupported"],
                     property_level=False, cfg=vc.get("cfg"))
@@ -710,8 +713,33 @@ def _solve_vc(i):
         if r0["status"] == "discharged":
             r0["backend"] = str(r0.get("backend")) + "(without UF facts)"
             r = r0
+        else:
+            # second stage: UF facts connected to the goal / path condition through shared symbols (relevance closure);
+            # facts about unrelated terms (other harmonics, constant-only terms) only slow the nonlinear solver down
+            from .interp import z_free_consts
+
+            seen = set(z_free_consts(vc["goal"]))
+            for a in core:
+                if not z3.is_quantifier(a):
+                    seen |= z_free_consts(a)
+            facts = [(a, z_free_consts(a)) for a in vc["pc"] if a.get_id() in ids]
+            chosen, changed = [], True
+            while changed:
+                changed = False
+                for item in list(facts):
+                    a, names = item
+                    if names and names & seen:
+                        chosen.append(a)
+                        seen |= names
+                        facts.remove(item)
+                        changed = True
+            if len(chosen) < len(ids):
+                r1 = smt.prove(core + chosen, vc["goal"], timeout_ms=budget, second_opinion=False, retries=retries)
+                if r1["status"] == "discharged":
+                    r1["backend"] = str(r1.get("backend")) + "(relevant UF facts)"
+                    r = r1
     if r is None:
-        r = smt.prove(vc["pc"], vc["goal"])
+        r = smt.prove(vc["pc"], vc["goal"], timeout_ms=budget, retries=retries, second_opinion=retries)
     if r["status"] == "undecided" and vc.get("hints"):
         # refutation search under extra ground constraints: any model found is a model of the original VC
         r2 = smt.prove(list(vc["pc"]) + list(vc["hints"]), vc["goal"], timeout_ms=10000, second_opinion=False)
